@@ -47,6 +47,26 @@ func (c *Check) middleware(id string, outer *ssa.Function, what string) *MW {
 	}
 	m.Msg = ms[0]
 	m.Family = WithAnon(m.Inner)
+	// private named functions that the middleware defers or starts at their only call site belong to it like literals do
+	for _, f := range WithAnon(m.Inner) {
+		rawInstrs(f, func(in ssa.Instruction) {
+			var cc *ssa.CallCommon
+			switch x := in.(type) {
+			case *ssa.Defer:
+				cc = &x.Call
+			case *ssa.Go:
+				cc = &x.Call
+			}
+			if cc == nil {
+				return
+			}
+			if cal := CalleeFn(cc); cal != nil && cal.Pkg == f.Pkg && cal.Parent() == nil && len(cal.Blocks) > 0 {
+				if site := OnlySite(cal); site != nil && site == in.(ssa.CallInstruction) {
+					m.Family = append(m.Family, WithAnon(cal)...)
+				}
+			}
+		})
+	}
 	for _, f := range m.Family {
 		for _, cl := range CallsIn(f) {
 			if cl.Common().IsInvoke() || CalleeFn(cl.Common()) != nil {
